@@ -8,7 +8,7 @@
    r_out = the frames on the stream; r_end = how the handler coroutine ended; r_pre = the stream flags then. *)
 From Coq Require Import String ZArith List Bool.
 From GV Require Import Lib.Str Gen.Facts Gen.FactsC03 Model.Base64 Model.Metadata Model.ServerCall
-  Proofs.C03Proofs Proofs.C03Examples.
+  Proofs.C03Proofs Proofs.C03Examples Gen.FactsC03Probes.
 Import ListNotations.
 Open Scope Z_scope.
 
@@ -224,17 +224,12 @@ Print Assumptions C03_partway_failure_is_harmless.
 Theorem C03_source_facts :
   aexit_exception = (2, Some internal_msg) /\ aexit_unary_missing = (2, Some internal_msg) /\
   aexit_normal = (0, None) /\ deadline_status_failed = 4 /\ deadline_status_cancelled = 4 /\ status_ok = 0 /\
-  aexit_grpc_ok_unary_as_exception = true.
+  aexit_grpc_ok_unary_as_exception = true /\ aexit_base_propagates = true.
 Proof. exact aexit_constants. Qed.
 Print Assumptions C03_source_facts.
 
-Theorem C03_source_api_checks :
-  api_checks =
-  [ (s2z "send_initial_metadata", [s2z "self._send_initial_metadata_done"]);
-    (s2z "send_message", [s2z "not self._cardinality.server_streaming && self._send_message_done"]);
-    (s2z "send_trailing_metadata",
-     [s2z "self._send_trailing_metadata_done";
-      s2z "not self._cardinality.server_streaming and (not self._send_message_done) and (status is Status.OK)"]);
-    (s2z "cancel", [s2z "self._cancel_done"]) ].
-Proof. exact api_checks_are. Qed.
-Print Assumptions C03_source_api_checks.
+(* ... and the model agrees with what the repository DOES on the regenerated probe programs (this replaces any
+   comparison of source text: refusal checks, emitted frames per state, exit path) *)
+Theorem C03_source_probes_agree : map golden_run golden_in = golden_out /\ (100 <= length golden_in)%nat.
+Proof. exact (conj golden_probes_agree golden_probes_nonempty). Qed.
+Print Assumptions C03_source_probes_agree.
